@@ -11,22 +11,16 @@ contracts below state which document is printed. The specification of each docum
 text: one entry per violation, in order, each field copied."""
 import json
 
-from pyvc.api import (contract, lemma, custom, Int, Bool, Str, Opt, SeqOf, TupleOf, Rec, Opaque, implies, call, mk, ih,
+from pyvc.api import (contract, lemma, custom, Int, Bool, Str, Opt, SeqOf, TupleOf, Rec, Opaque, EnumOf, implies, call, mk, ih,
                       opaque, reveal, uf, added, use)
 from contracts import _common  # noqa: F401  (external handlers: click.echo, sys.exit, json.dumps)
 
 CU = "src/core/cli_utils.py::"
 SF = "src/formatters/sarif.py::"
 
-SeverityT = Rec("Severity", cls="src/core/types.py::Severity", name=Str, value=Str)
-
-
-def _native_severity(fields):
-    from src.core.types import Severity
-    return Severity.ERROR
-
-
-SeverityT.build_native = _native_severity
+# Severity members are represented by their value string ("error"); ViolationS is therefore the SAME record sort as
+# contracts._common.ViolationT (severity=Str): two views of the same objects
+SeverityT = EnumOf("src/core/types.py::Severity", pycls="src.core.types:Severity")
 ViolationS = Rec("Violation", cls="src/core/types.py::Violation", pycls="src.core.types:Violation",
                  rule_id=Str, file_path=Str, line=Int, column=Int, message=Str, severity=SeverityT, suggestion=Opt(Str))
 Violations = SeqOf(ViolationS)
